@@ -14,6 +14,7 @@ import warnings
 from fractions import Fraction
 
 from harness.common import fakeproc
+from harness.common.build import InfraError
 from harness.props.c08_facts import facts  # noqa: F401  (translator entry point)
 
 PROP = "C08"
@@ -273,22 +274,59 @@ def drive(ctx, lines, workers=8, chunk=1500):
     return [o for part in outs for o in part]
 
 
+def _spaces(n):
+    return b" " * n
+
+
+def py_render(case):
+    """The same three renderers as Spec/C08.lean, in Python, so that the implementation can run
+    while the model drivers are still busy; byte equality with the Lean rendering is required
+    afterwards (the Lean renderers stay the reference)."""
+    op = case["op"]
+    if op in ("vmraw", "swapraw"):
+        second = case.get("zoneinfo") if op == "vmraw" else case.get("vmstat")
+        return bytes.fromhex(case["meminfo"]), None if second is None else bytes.fromhex(second)
+    mi = b"".join(bytes.fromhex(n) + b":" + _spaces(p + 1) + str(v).encode() + (b" kB" if u else b"") + b"\n"
+                  for n, v, p, u in case["entries"])
+    if op == "vm":
+        zs = case["zones"]
+        if zs is None:
+            return mi, None
+        out = []
+        for l in zs:
+            if l[0] == "low":
+                out.append(_spaces(l[1]) + b"low" + _spaces(l[2] + 1) + str(l[3]).encode() + b"\n")
+            else:
+                out.append(_spaces(l[1]) + bytes.fromhex(l[2]) + b"\n")
+        return mi, b"".join(out)
+    vs = case["vmstat"]
+    if vs is None:
+        return mi, None
+    return mi, b"".join(bytes.fromhex(n) + b" " + str(v).encode() + b"\n" for n, v in vs)
+
+
 def run_cases(ctx, impl, cases):
-    """cases: driver lines (op vm / vmraw / swap / swapraw). Returns [(case, impl_out, driver_out)]."""
-    outs = drive(ctx, cases)
+    """cases: driver lines (op vm / vmraw / swap / swapraw). Returns [(case, impl_out, driver_out)].
+    The model drivers run in background threads while the implementation is exercised here."""
+    with concurrent.futures.ThreadPoolExecutor(max_workers=1) as bg:
+        fut = bg.submit(drive, ctx, cases)
+        ims, files = [], []
+        for case in cases:
+            a, b = py_render(case)
+            files.append((a, b))
+            if case["op"] in ("vm", "vmraw"):
+                ims.append(impl.vm(a, b, case["pagesize"]))
+            else:
+                ims.append(impl.swap(a, case["sysinfo"], b))
+        outs = fut.result()
     rows = []
-    for case, out in zip(cases, outs):
+    for case, im, (a, b), out in zip(cases, ims, files, outs):
         if "bad" in out:
-            raise RuntimeError("driver rejected %r: %s" % (case, out))
-        op = case["op"]
-        if op in ("vm", "vmraw"):
-            mi = bytes.fromhex(out["meminfo"] if op == "vm" else case["meminfo"])
-            z = out.get("zoneinfo") if op == "vm" else case.get("zoneinfo")
-            im = impl.vm(mi, None if z is None else bytes.fromhex(z), case["pagesize"])
-        else:
-            mi = bytes.fromhex(out["meminfo"] if op == "swap" else case["meminfo"])
-            v = out.get("vmstat") if op == "swap" else case.get("vmstat")
-            im = impl.swap(mi, case["sysinfo"], None if v is None else bytes.fromhex(v))
+            raise InfraError("driver rejected %r: %s" % (case, out))
+        if case["op"] in ("vm", "swap"):
+            second = out.get("zoneinfo") if case["op"] == "vm" else out.get("vmstat")
+            if bytes.fromhex(out["meminfo"]) != a or (None if second is None else bytes.fromhex(second)) != b:
+                raise InfraError("Python and Lean renderers disagree on %r" % (case,))
         rows.append((case, im, out))
     return rows
 
@@ -585,7 +623,10 @@ EXH_VALUES = {  # distinct values so that a swapped key shows
 }
 
 
-def exhaustive_vm(profiles):
+AVAIL_KEYS = ["MemAvailable", "Active(file)", "Inactive(file)", "SReclaimable", "Cached"]
+
+
+def exhaustive_vm(profiles, reduced=()):
     """every subset of the 14 optional keys, for each profile: (values, zones, pagesize)"""
     for prof in profiles:
         vals = EXH_VALUES[prof]
@@ -598,6 +639,12 @@ def exhaustive_vm(profiles):
                      ["other", 0, hx("Node 0, zone   Normal")], ["low", 8, 5, 13225]]
         for mask in range(1 << len(OPTIONAL)):
             present = REQUIRED + [k for i, k in enumerate(OPTIONAL) if mask >> i & 1]
+            if prof in reduced:
+                # only the keys `available` depends on vary freely; the others all-or-none
+                rest = [k for k in OPTIONAL if k not in AVAIL_KEYS]
+                n_rest = sum(1 for k in rest if k in present)
+                if n_rest not in (0, len(rest)):
+                    continue
             yield {"op": "vm", "entries": [entry(k, vals[k]) for k in present], "zones": zones,
                    "pagesize": 4096}
 
@@ -788,6 +835,8 @@ def validate_renderers(ctx, res):
 
 
 def correspond(ctx, res):
+    import time
+    t_start = time.time()
     impl = Impl(ctx)
     try:
         res.rule = ("kernel states (meminfo entries, zoneinfo lines, vmstat lines, sysinfo triple) from 17 "
@@ -807,10 +856,11 @@ def correspond(ctx, res):
             fam = VM_FAMILIES[i % len(VM_FAMILIES)]
             cases.append(gen_vm(rng, fam))
             srcs.append("vm:" + fam)
-        profiles = ["typical", "starved"] if ctx.tier == "quick" and ctx.budget_factor == 1 else \
-            ["typical", "starved", "distorted", "zero"]
+        quick = ctx.tier == "quick" and ctx.budget_factor == 1
+        profiles = ["typical", "starved", "distorted", "zero"]
+        reduced = ("starved", "distorted", "zero") if quick else ()
         n_before = len(cases)
-        for c in exhaustive_vm(profiles):
+        for c in exhaustive_vm(profiles, reduced):
             cases.append(c)
             srcs.append("vm:exhaustive")
         n_exh = len(cases) - n_before
@@ -830,6 +880,7 @@ def correspond(ctx, res):
             cases.append(c)
             srcs.append("swap:raw")
         rows = run_cases(ctx, impl, cases)
+        res.extra["run_cases_s"] = round(time.time() - t_start, 1)
         for (case, im, out), src in zip(rows, srcs):
             tags = vm_tags(case, out) if case["op"] == "vm" else swap_tags(case, out) if case["op"] == "swap" else set()
             res.count("family:" + src)
@@ -841,13 +892,17 @@ def correspond(ctx, res):
             res.case(case, nontrivial=nontriv,
                      sample={"source": src, "input": case, "impl": im} if len(res.samples) < 6 and res.evaluations % 997 == 3 else None)
             compare(case, im, out, res, src)
-        res.exhaustive = ("all %d subsets of the 14 optional /proc/meminfo keys × profiles %s (virtual_memory), and all "
-                          "4 SwapTotal/SwapFree presence × %d vmstat shapes × %d magnitude profiles (swap_memory); the "
-                          "magnitudes are samples" % (1 << len(OPTIONAL), profiles, len(VMSTAT_STYLES), len(SWAP_PROFILES)))
+        res.exhaustive = ("all %d subsets of the 14 optional /proc/meminfo keys under profile(s) %s%s (virtual_memory), "
+                          "and all 4 SwapTotal/SwapFree presence × %d vmstat shapes × %d magnitude profiles "
+                          "(swap_memory); the magnitudes are samples" % (
+                              1 << len(OPTIONAL), [p for p in profiles if p not in reduced],
+                              ("; under %s all subsets of the 5 keys `available` depends on × the other 9 all present/absent"
+                               % list(reduced)) if reduced else "", len(VMSTAT_STYLES), len(SWAP_PROFILES)))
         res.extra["driver_lines"] = len(cases)
         res.extra["exhaustive_cases"] = n_exh
         res.extra["swap_cases"] = n_swap
         validate_renderers(ctx, res)
+        res.extra["correspond_s"] = round(time.time() - t_start, 1)
     finally:
         impl.close()
 
